@@ -199,7 +199,7 @@ fn main() {
     let prop = Property {
         id: "C16",
         level: "fault_enumeration",
-        rule: "for each carousel configuration (FEC scheme x in-band/FDT-only FTI x in-band/FDT-only CENC x cenc x 1-3 objects x delay/interval carousel x FullFDT/ObjectsBeingTransferred x single/multi-packet FDT x interleave x FDT protected by the same scheme x buffer / stream sources x FDT instance ids starting at 0 or just below the 2^20 wrap) one long stream is produced on a virtual clock and a FRESH receiver is started at EVERY packet offset of one full carousel cycle; it is fed the stream from that offset up to the index by which every object had two further full transfers and the FDT two further full emissions (computed from Start/Stop events and the independent decoder); oracle: every object has a Complete writer with exact bytes and its last writer is not in error; per configuration: the sender neither panics nor hangs and every finished carousel round carries every source symbol; a case is one chunk of join offsets of one configuration, non-trivial when at least one writer completed; distinct = (configuration, chunk); aged configurations: FDT lifetime 2 s, stream of 8.5 s, half after set_complete(), late joiners also started in the last third of the stream",
+        rule: "for each carousel configuration (FEC scheme x in-band/FDT-only FTI x in-band/FDT-only CENC x cenc x 1-3 objects x delay/interval carousel x FullFDT/ObjectsBeingTransferred x single/multi-packet FDT x interleave x FDT protected by the same scheme x buffer / stream sources x FDT instance ids starting at 0 or just below the 2^20 wrap) one long stream is produced on a virtual clock and a FRESH receiver is started at EVERY packet offset of one full carousel cycle; it is fed the stream from that offset up to the index by which every object had two further full transfers and the FDT two further full emissions (computed from Start/Stop events and the independent decoder); oracle: every object has a Complete writer with exact bytes and its last writer is not in error; per configuration: the sender neither panics nor hangs and every finished carousel round carries every source symbol; a case is one chunk of join offsets of one configuration, non-trivial when at least one writer completed; distinct = (configuration, chunk); aged configurations: FDT lifetime 2 s, stream of 8.5 s, half after set_complete(), late joiners also started in the last third of the stream; the late joiners of the aged configurations run on a clock 0 / +3 s / -3 s / +1 h away from the sender's",
         assumptions: vec![
             "receiver: no object timeout, max_objects_error 0 and 4 alternating over the join offsets, FDT expiry check on with a 1 h FDT duration (expiry interplay is C19's)".into(),
             "carousel parameters leave room for the objects between FDT repetitions (FDT has absolute priority)".into(),
